@@ -442,3 +442,75 @@ pub fn valid_absolute_k(wire: &[u8], k: usize) -> bool {
 }
 
 impl<const CAP: usize> domain::base::wire::Composer for FixedBuf<CAP> {}
+
+// --------------------------------------------------------- message reader
+
+/// Independent RFC 1035 4.1.4 name reader: decompresses the name at `pos`
+/// into `out` (flat wire form).  Returns (flat length, position after the
+/// name in the message) or None if malformed / more than `hops` pointers /
+/// more than `labels` labels.
+pub fn ref_read_name(msg: &[u8], pos: usize, out: &mut [u8; 32], labels: usize, hops: usize) -> Option<(usize, usize)> {
+    let mut p = pos;
+    let mut o = 0usize;
+    let mut after: Option<usize> = None;
+    let mut nl = 0;
+    let mut nh = 0;
+    loop {
+        if p >= msg.len() {
+            return None;
+        }
+        let b = msg[p] as usize;
+        if b & 0xC0 == 0xC0 {
+            if p + 1 >= msg.len() || nh >= hops {
+                return None;
+            }
+            let t = ((b & 0x3F) << 8) | msg[p + 1] as usize;
+            if after.is_none() {
+                after = Some(p + 2);
+            }
+            if t >= p {
+                return None;
+            }
+            p = t;
+            nh += 1;
+            continue;
+        }
+        if b > 63 {
+            return None;
+        }
+        if o + 1 + b > 32 || p + 1 + b > msg.len() {
+            return None;
+        }
+        out[o] = b as u8;
+        let mut i = 0;
+        while i < b {
+            out[o + 1 + i] = msg[p + 1 + i];
+            i += 1;
+        }
+        o += 1 + b;
+        p += 1 + b;
+        if b == 0 {
+            return Some((o, after.unwrap_or(p)));
+        }
+        nl += 1;
+        if nl > labels {
+            return None;
+        }
+    }
+}
+
+/// Case-insensitive equality of two flat wire names.
+pub fn wire_names_eq(a: &[u8], b: &[u8]) -> bool {
+    if a.len() != b.len() {
+        return false;
+    }
+    // label length octets are < 0x41, so lower-casing everything is safe
+    let mut i = 0;
+    while i < a.len() {
+        if lc(a[i]) != lc(b[i]) {
+            return false;
+        }
+        i += 1;
+    }
+    true
+}
